@@ -166,8 +166,13 @@ def _laws(case):
     tuples = list(itertools.product(L, repeat=n))
     cols = [[t[i] for t in tuples] for i in range(n)]
 
+    shared = [D.mk_array(c) for c in cols]
+    pristine = [a.copy() for a in shared]
+
     def arrs():
-        return [D.mk_array(c) for c in cols]
+        # the SAME input arrays are handed to every operator call of this case, as in a model where several commands consume the same
+        # results: an operator that modifies its inputs corrupts the later laws (and is reported below)
+        return list(shared)
 
     viols = []
     judged = 0
@@ -213,6 +218,17 @@ def _laws(case):
             for pm in perms:
                 a = arrs()
                 law("%s-input-order" % op, _same(_ex(op, [a[i] for i in pm]), base, 1e-12), "perm %r" % (pm,))
+    # second pass over every operator on the shared inputs: same results as on pristine copies
+    for op, params in (("FuzzyOr", {}), ("FuzzyAnd", {}), ("FuzzyUnion", {}), ("FuzzyXOr", {}), ("FuzzyWeightedUnion", {"Weights": [1] + [0.5] * (n - 1)}),
+                       ("FuzzyWeightedUnion", {"Weights": [2] * n}), ("FuzzySelectedUnion", {"TruestOrFalsest": "Truest", "NumberToConsider": 1}),
+                       ("FuzzySelectedUnion", {"TruestOrFalsest": "Falsest", "NumberToConsider": n})):
+        if op == "FuzzyXOr" and n < 2:
+            continue
+        a = _ex(op, list(shared), params)
+        b = _ex(op, [x.copy() for x in pristine], params)
+        law("%s-same-on-shared-inputs" % op, _same(a, b, 0.0), "params %r" % (params,))
+    for i, (x, y) in enumerate(zip(shared, pristine)):
+        law("inputs-unchanged", _same(("ok", x), ("ok", y), 0.0), "input %d was modified by an operator" % i)
     return {"evals": len(tuples) * 12, "nontrivial": len(tuples), "judged": judged, "viols": viols,
             "outcomes": {"laws:ok" if not viols else "laws:bad": 1},
             "sample": {"laws_on": "all %d tuples of %s^%d" % (len(tuples), lat, n)}}
